@@ -71,9 +71,12 @@ func (rq *remoteQueue) retryLast() {
 }
 
 func (rq *remoteQueue) consume() uint64 {
-	// release and clear the previous last consumed item
+	// release and clear the previous last consumed item, unless a retry put
+	// it back at the head of the queue, where it is still in use
 	if rq.lastConsumed != nil {
-		linkedRemoteItemPool.Put(rq.lastConsumed)
+		if rq.lastConsumed != rq.head {
+			linkedRemoteItemPool.Put(rq.lastConsumed)
+		}
 		rq.lastConsumed = nil
 	}
 	// update our total data size buffered
